@@ -98,7 +98,45 @@ def hist_execute(case):
             "classes": ["end_on_timestamp" if on_ts else "end_off_timestamp", "start_on_timestamp" if a in case["times"] else "start_off_timestamp"]}
 
 
-def class_matrix_profile():
+@st.composite
+def reserved_story(draw):
+    """Storyboard generator (structure fixed, timings and options drawn): a customer finishes at a scheduled node, changes class there (A -> B), is
+    blocked by a full node, interrupted while blocked by a pre-emptive shift end, served again when servers return, pre-empted by a top-priority
+    arrival and then changes class while waiting (B -> A).  Every tracker must follow it through all of that."""
+    e1 = draw(st.sampled_from([3.0, 4.0]))
+    gap = draw(st.sampled_from([0.5, 1.0, 2.0]))
+    e3 = e1 + gap + draw(st.sampled_from([4.0, 6.0, 8.0]))
+    pb = draw(st.sampled_from([1, 1, 2]))                   # priority of B: equal to A's (1) or lower
+    opt = draw(st.sampled_from(["restart", "resample", "restart", "resample", "resume"]))
+    popt = draw(st.sampled_from(["resume", "restart", "resample"]))
+    tracker = S.tracker(draw, 2, ["A", "B", "H"])
+    a_arr = [draw(st.sampled_from([0.25, 0.5])), draw(st.sampled_from([0.25, 0.5, 1.0])), draw(st.sampled_from([0.5, 1.0, 4.0])), "inf"]
+    h_arr = [round(e1 + gap + draw(st.sampled_from([0.25, 0.25, 0.5, 1.0])), 6), draw(st.sampled_from([1.0, 2.0])), "inf"]
+    srv_a = draw(st.sampled_from([0.5, 0.75]))
+    ident = lambda c: {x: (1.0 if x == c else 0.0) for x in ("A", "B", "H")}
+    classes = [
+        {"name": "A", "priority": 1, "arrival": [["seq", a_arr], None], "service": [["det", srv_a], ["det", draw(st.sampled_from([6.0, 9.0, 12.0]))]],
+         "routing": {"kind": "matrix", "rows": [[0.0, 1.0], [0.0, 0.0]]}},
+        {"name": "B", "priority": pb, "arrival": [None, None], "service": [["det", draw(st.sampled_from([2.0, 3.0]))], ["det", draw(st.sampled_from([9.0, 12.0]))]],
+         "cct": {"A": ["det", draw(st.sampled_from([0.25, 0.5, 1.0]))]}, "routing": {"kind": "matrix", "rows": [[0.0, 1.0], [0.0, 0.0]]}},
+        {"name": "H", "priority": 0, "arrival": [["seq", h_arr], None], "service": [["det", draw(st.sampled_from([1.0, 2.0, 3.0]))], ["det", 1.0]],
+         "routing": {"kind": "matrix", "rows": [[0.0, 0.0], [0.0, 0.0]]}},
+    ]
+    nodes = [{"cap": "inf", "prio_preempt": popt, "ccm": {"A": {"A": 0.0, "B": 1.0, "H": 0.0}, "B": ident("B"), "H": ident("H")},
+              "servers": {"kind": "schedule", "numbers": [draw(st.sampled_from([1, 2])), 0, draw(st.sampled_from([1, 2]))], "ends": [e1, e1 + gap, e3],
+                          "preemption": opt, "offset": 0.0}},
+             {"cap": 0, "servers": {"kind": "int", "c": 1}}]
+    return {"classes": classes, "nodes": nodes, "tracker": tracker, "plan": {"kind": "max_time", "T": [round(e3 + 1.0, 6)]},
+            "seed": draw(st.integers(0, 50)), "event_budget": 400}
+
+
+def class_matrix_profile(blocked=False):
+    if blocked:
+        w = {"tracker": 1.0, "priorities": 1.0, "prio_preempt": 1.0, "cc_waiting": 1.0, "cc_after": 1.0, "schedule": 1.0, "sched_preempt": 1.0, "capacity": 1.0,
+             "self_loops": 0.5, "batching": 0.3, "discipline": 0.2}
+        return S.Profile(list(w), weights=w, required=tuple(k for k in w if w[k] == 1.0), numeric="grid", max_nodes=2, max_classes=3,
+                         plans=("max_time",), horizon=(10.0, 24.0), budget=700, load="heavy", max_c=2, caps=(0, 1, 1), resumptions=(1, 1), stay=0.6,
+                         tracker_kinds=("NodeClassMatrix",), excluded=common.EXCL["C17"])
     w = {"tracker": 1.0, "priorities": 1.0, "prio_preempt": 1.0, "prio_reroute": 0.4, "cc_waiting": 1.0, "cc_after": 0.6, "schedule": 0.4, "sched_preempt": 0.6,
          "reneging": 0.3, "batching": 0.3, "self_loops": 0.5, "capacity": 0.3, "discipline": 0.2, "routing_objects": 0.2}
     return S.Profile(list(w), weights=w, required=("tracker", "priorities", "prio_preempt", "cc_waiting"), numeric="grid", max_nodes=2, max_classes=3,
@@ -180,6 +218,16 @@ def subchecks(tier):
                         n={"quick": 3600, "thorough": 20000},
                         rule="NodeClassMatrix under every way a customer's class or place changes: class change while waiting and after service, "
                              "pre-emptive priorities (incl. reroute) and schedules, reneging; same truth monitor"),
+        system_subcheck("class_matrix_blocked", class_matrix_profile(blocked=True), lambda spec: [TrackerTruth(spec)],
+                        lambda a, spec, res: a.get("ev_class_change", 0) >= 1 and a.get("rec_interrupted_service", 0) >= 1 and a.get("blocked_seen", 0) >= 1,
+                        classes=classes, n={"quick": 3600, "thorough": 20000},
+                        rule="NodeClassMatrix where customers that changed class after service are blocked, interrupted while blocked by a pre-emptive shift end, "
+                             "served again, pre-empted and change class while waiting; three classes, two of which may share a priority"),
+        system_subcheck("reserved_story", None, lambda spec: [TrackerTruth(spec)],
+                        lambda a, spec, res: a.get("ev_class_change", 0) >= 1 and a.get("rec_interrupted_service", 0) >= 2 and a.get("blocked_seen", 0) >= 1,
+                        classes=classes, strategy=reserved_story(), n={"quick": 1600, "thorough": 8000},
+                        rule="storyboard: finish + class change after service -> blocked -> interrupted while blocked -> served again -> pre-empted -> class change "
+                             "while waiting (timings, options, priorities and the tracker drawn); non-trivial = the run really contains those steps"),
         reused_tracker_subcheck(),
         SubCheck("state_probabilities", hist_execute, strategy=hist_case(), n={"quick": 24000, "thorough": 80000}, kind="unit", is_spec=False,
                  rule="histories of 1-7 states on a dyadic time grid x finite windows with endpoints on / between / beyond timestamps; non-trivial = >= 3 states"),
